@@ -111,6 +111,27 @@ impl Property for C10 {
     }
 
     fn generate(rng: &mut Rng, _tier: Tier) -> Sc {
+        if rng.chance(1, 80) {
+            // exactly 255, 256, 257 or 512 removals fail under one starting point (matched
+            // directories that are not empty) and nothing else does: status non-zero
+            let mut spec = tree::TreeSpec::default();
+            for p in ["t", "t/many", "u", "out", "out/od"] {
+                spec.nodes.push(Node::Dir { path: p.into() });
+            }
+            spec.nodes.push(Node::File { path: "u/g".into(), size: 1, token: 2, atime_ns: None, mtime_ns: None });
+            spec.bulk.push(tree::Bulk { dir: "t/many".into(), count: *rng.pick(&[255usize, 256, 256, 257, 512]), kind: tree::BulkKind::DirWithFile });
+            let find = FindScenario::new(spec, vec![]);
+            return Sc {
+                find,
+                follow_flag: None,
+                starts: if rng.chance(1, 2) { vec!["t".into()] } else { vec!["t".into(), "u".into()] },
+                sorted: rng.chance(1, 2),
+                mindepth: None,
+                maxdepth: None,
+                tests: vec!["-type".into(), "d".into(), "-name".into(), "b*".into()],
+                quit_on_failure: false,
+            };
+        }
         let follow_flag = match rng.weighted(&[45, 10, 20, 25]) {
             0 => None,
             1 => Some("-P".to_string()),
@@ -513,6 +534,9 @@ impl Property for C10 {
         let failures = ref_ok.iter().filter(|x| !**x).count();
         if failures > 0 {
             rep.fault_n("removal_failed", failures as u64);
+        }
+        if failures >= 255 {
+            rep.probe("hundreds_of_failing_removals");
         }
         if pass1.iter().zip(&ref_ok).any(|(p, ok)| !*ok && fs::symlink_metadata(b.join(p)).map(|m| m.is_dir()).unwrap_or(false)) {
             rep.probe("matched_directory_not_empty_or_not_removable");
